@@ -84,6 +84,35 @@ SEEDS = {
                                        "64-bit slots, SetIncr on an element straddling two slots, data in the upper half of the second slot"),
  "C18-countunique-fallback-claims-all-unique": (["C18", "C06"], "the out-of-memory fallbacks of varintAdaptiveCountUnique return count (all unique) instead of count - 1: BITMAP can be selected for input with duplicates",
                                                 "the first allocation fails; ascending input < 65536 with a duplicate, dense, count < 10000"),
+ # ---- batch 5 ----
+ "C13-bp128-delta-decode32-room-check": (["C13"], "varintBP128DeltaDecode32's room check for a full block uses decoded - 1 as the base: a full 128-value block is accepted when only 127 slots remain",
+                                         "capacity an exact non-zero multiple of 128, smaller than the count"),
+ "C10-row-width-macro-masked": (["C10"], "VARINT_DIMENSION_PAIR_WIDTH_ROW_COUNT masks the row width with 0x07: width 8 reads back as 0",
+                                "row counts >= 2^56 (8-byte row width)"),
+ "C08-add-array-full-convert-before-search": (["C08"], "varintBitmapAdd converts a full array container to a bitmap before looking the value up: an existing member is counted again",
+                                              "ARRAY container with exactly 4096 members, add of an existing member"),
+ "C06-for-arm-reuses-caller-meta": (["C16", "C06", "C15"], "the FOR arm of varintAdaptiveEncodeWith passes the caller's meta->encodingMeta.forMeta to varintFOREncode, which treats a meta with matching count as already analysed",
+                                    "the same varintAdaptiveMeta reused for a second FOR-selected block of equal length"),
+ "C01-external-be-56b-stores-8": (["C01"], "the big-endian external encoder's 7-byte case ends with an 8-byte memcpy",
+                                  "big-endian external family, width exactly 7, a live byte after the encoding"),
+ "C15-remove-runs-to-bitmap-malloc": (["C15", "C08"], "varintBitmapRemove's RUNS-to-BITMAP conversion allocates the bit array with malloc instead of calloc",
+                                      "RUNS container (AddRange > 4096 on an empty set), Remove while cardinality >= 4096, recycled heap block"),
+ "C12-tagged-add-unsigned-overflow-check": (["C12"], "VARINT_ADD_OR_ABORT_OVERFLOW_ uses the type-generic __builtin_add_overflow and varintTaggedAdd's sum became uint64_t: overflow is measured against the unsigned range",
+                                            "sum outside [0, INT64_MAX]"),
+ "C14-dict-decodeinto-room-from-buffer-start": (["C14"], "varintDictDecodeInto checks that the indices fit against end - buffer (the whole input) instead of end - ptr: header bytes already consumed are ignored",
+                                                "input whose index area is cut short by 1..header-length bytes"),
+ "C09-startoffset-multiplied-before-widening": (["C09"], "the packed array's startOffset multiplies offset * BITS in the 32-bit index type before widening",
+                                                "element index with index * width >= 2^32 (arrays over 512 MiB)"),
+ "C11-signbit-macro-int-shift": (["C11"], "the signed prepare/restore helpers build the sign mask with (1 << (w - 1)) in int instead of 1ULL",
+                                 "negative values through the signed helpers with a field width of 32 or more"),
+ "C04-chainedsimple-max-width-named-constant": (["C04", "C01"], "chained-simple's notAtMaximumWidth compares the byte offset with 9 instead of 8: values with bit 63 set are written as 10 bytes",
+                                                "values >= 2^63 in the chained-simple family"),
+ "C18-adaptive-suboom-falls-back-to-tagged": (["C18", "C06"], "when a sub-encoder returns 0 varintAdaptiveEncodeWith falls back to tagged encoding and reports success, but dst[0] still carries the requested type",
+                                              "an allocation failure inside the PFOR or DICT arm"),
+ "C03-dict-size-early-exit-8-bytes": (["C03"], "varintDictEncodedSizeWithDict stops measuring entries once one reaches 8 bytes and charges 8 for the rest; tagged values go up to 9",
+                                      "a dictionary with an 8-byte-wide value and at least one larger one"),
+ "C16-for-analyze-early-scan-exit": (["C16"], "varintFORAnalyze stops the min/max scan once the range exceeds 2^56: minimum and maximum are those of a prefix",
+                                     "range reaching 2^56 before the end of the array with a later extreme"),
  "C18-array-grow-realloc-in-place": (["C18"], "arrayEnsureCapacity_ assigns realloc's result straight to the values field: on failure the old array is leaked and the field is NULL with cardinality > 0",
                                      "allocation failure exactly at the array growth realloc"),
 }
